@@ -73,10 +73,12 @@ class SR:
     __array_priority__ = 1000
     def __init__(self, t): self.t = t
     def _b(self, o, f):
+        if hasattr(o,'ndim') and getattr(o,'ndim',0)>0: return NotImplemented
         try: oz = toz(o)
         except TypeError: return NotImplemented
         return SR(f(self.t, oz))
     def _rb(self, o, f):
+        if hasattr(o,'ndim') and getattr(o,'ndim',0)>0: return NotImplemented
         try: oz = toz(o)
         except TypeError: return NotImplemented
         return SR(f(oz, self.t))
@@ -133,10 +135,23 @@ class SR:
         for (y, x) in EX.exps:
             if z3.eq(y, s.t): return SR(x)
         x = fresh('exp'); EX.exps.append((s.t, x)); return SR(x)
-    def __lt__(s,o): return SB(s.t < toz(o))
-    def __le__(s,o): return SB(s.t <= toz(o))
-    def __gt__(s,o): return SB(s.t > toz(o))
-    def __ge__(s,o): return SB(s.t >= toz(o))
+    def _inf(o):
+        try:
+            f = float(o) if isinstance(o,(int,float)) or hasattr(o,'dtype') else None
+        except Exception: f=None
+        return f if f is not None and math.isinf(f) else None
+    def __lt__(s,o):
+        i=SR._inf(o)
+        return (i>0) if i is not None else SB(s.t < toz(o))
+    def __le__(s,o):
+        i=SR._inf(o)
+        return (i>0) if i is not None else SB(s.t <= toz(o))
+    def __gt__(s,o):
+        i=SR._inf(o)
+        return (i<0) if i is not None else SB(s.t > toz(o))
+    def __ge__(s,o):
+        i=SR._inf(o)
+        return (i<0) if i is not None else SB(s.t >= toz(o))
     def __eq__(s,o):
         try: return SB(s.t == toz(o))
         except TypeError: return False
